@@ -8,7 +8,7 @@ open Kopf Kopf.J
 
 theorem diff_obj_obj (ka kb : Kvs) (p : Path) :
     diff (.obj ka) (.obj kb) p =
-      if pyEq (.obj ka) (.obj kb) then []
+      if same (.obj ka) (.obj kb) then []
       else diffAdded ka kb p ++ diffRemoved ka kb p ++ diffCommon ka kb p := by
   simp [diff]
 
@@ -18,14 +18,14 @@ theorem diff_leaf_left {a : J} (b : J) (p : Path) (h : a.isObj = false) : diff a
 theorem diff_leaf_right (a : J) {b : J} (p : Path) (h : b.isObj = false) : diff a b p = diffLeaf a b p := by
   cases b <;> first | (simp [isObj] at h; done) | (cases a <;> simp [diff])
 
-theorem diffLeaf_nil_iff (a b : J) (p : Path) : diffLeaf a b p = [] ↔ pyEq a b = true := by
+theorem diffLeaf_nil_iff (a b : J) (p : Path) : diffLeaf a b p = [] ↔ same a b = true := by
   unfold diffLeaf
-  by_cases h : pyEq a b = true
+  by_cases h : same a b = true
   · simp [h]
   · simp only [h, Bool.false_eq_true, if_false, iff_false]
     cases a <;> cases b <;> simp
 
-theorem diff_of_pyEq {a b : J} (p : Path) (h : pyEq a b = true) : diff a b p = [] := by
+theorem diff_of_pyEq {a b : J} (p : Path) (h : same a b = true) : diff a b p = [] := by
   cases ha : a.isObj with
   | false => rw [diff_leaf_left b p ha]; exact (diffLeaf_nil_iff a b p).2 h
   | true =>
@@ -99,28 +99,28 @@ theorem diffCommon_nil_iff (ka kb : Kvs) (p : Path) :
       | none => rfl
       | some y => exact h k0 x0 (Or.inl rfl) y hl
 
-theorem pyEq_nonobj_obj {a : J} (kb : Kvs) (h : a.isObj = false) : pyEq a (.obj kb) = false := by
-  cases a <;> simp [isObj] at h <;> simp [pyEq]
+theorem pyEq_nonobj_obj {a : J} (kb : Kvs) (h : a.isObj = false) : same a (.obj kb) = false := by
+  cases a <;> simp [isObj] at h <;> simp [same]
 
-theorem pyEq_obj_nonobj (ka : Kvs) {b : J} (h : b.isObj = false) : pyEq (.obj ka) b = false := by
-  cases b <;> simp [isObj] at h <;> simp [pyEq]
+theorem pyEq_obj_nonobj (ka : Kvs) {b : J} (h : b.isObj = false) : same (.obj ka) b = false := by
+  cases b <;> simp [isObj] at h <;> simp [same]
 
 theorem isNull_iff {v : J} : v.isNull = true ↔ v = .null := by
   cases v <;> simp [isNull]
 
-/-- two present values stand in the dropped-nulls relation iff their `dropNulls` are `pyEq`. -/
+/-- two present values stand in the dropped-nulls relation iff their `dropNulls` are `same`. -/
 theorem optRel_dn_some (x y : J) :
-    optRel pyEq (dnOpt (some x)) (dnOpt (some y)) ↔ pyEq (dropNulls x) (dropNulls y) = true := by
-  cases x <;> cases y <;> simp [dnOpt, isNull, optRel, dropNulls, pyEq]
+    optRel same (dnOpt (some x)) (dnOpt (some y)) ↔ same (dropNulls x) (dropNulls y) = true := by
+  cases x <;> cases y <;> simp [dnOpt, isNull, optRel, dropNulls, same]
 
 theorem dnOpt_none_iff (y : J) : dnOpt (some y) = none ↔ y = .null := by
   cases y <;> simp [dnOpt, isNull]
 
 /-- **diff is empty iff the two values are equal up to Python `==` and null-valued keys.** -/
 theorem diff_nil_iff (a : J) : ∀ (b : J) (p : Path), wf a = true → wf b = true →
-    (diff a b p = [] ↔ pyEq (dropNulls a) (dropNulls b) = true) := by
+    (diff a b p = [] ↔ same (dropNulls a) (dropNulls b) = true) := by
   refine objInduction (P := fun a => ∀ (b : J) (p : Path), wf a = true → wf b = true →
-    (diff a b p = [] ↔ pyEq (dropNulls a) (dropNulls b) = true)) a ?_ ?_
+    (diff a b p = [] ↔ same (dropNulls a) (dropNulls b) = true)) a ?_ ?_
   · intro a ha b p _ _
     rw [diff_leaf_left b p ha, diffLeaf_nil_iff, dropNulls_nonobj ha]
     cases hb : b.isObj with
@@ -144,7 +144,7 @@ theorem diff_nil_iff (a : J) : ∀ (b : J) (p : Path), wf a = true → wf b = tr
       rw [diff_obj_obj]
       constructor
       · intro hd k
-        by_cases hpe : pyEq (.obj ka) (.obj kb) = true
+        by_cases hpe : same (.obj ka) (.obj kb) = true
         · have hk := (pyEq_obj_iff hwa hwb).1 hpe k
           cases hla : lookup k ka with
           | none =>
@@ -156,7 +156,7 @@ theorem diff_nil_iff (a : J) : ∀ (b : J) (p : Path), wf a = true → wf b = tr
             | none => rw [hla, hlb] at hk; simp [optRel] at hk
             | some y =>
               rw [hla, hlb] at hk
-              have hxy : pyEq x y = true := hk
+              have hxy : same x y = true := hk
               rw [optRel_dn_some]
               exact (ih k x (mem_of_lookup hla) y (p ++ [k]) (wf_of_lookup hwa hla) (wf_of_lookup hwb hlb)).1
                 (diff_of_pyEq _ hxy)
@@ -185,7 +185,7 @@ theorem diff_nil_iff (a : J) : ∀ (b : J) (p : Path), wf a = true → wf b = tr
               exact (ih k x (mem_of_lookup hla) y (p ++ [k]) (wf_of_lookup hwa hla) (wf_of_lookup hwb hlb)).1
                 (hC k x (mem_of_lookup hla) y hlb)
       · intro h
-        by_cases hpe : pyEq (.obj ka) (.obj kb) = true
+        by_cases hpe : same (.obj ka) (.obj kb) = true
         · rw [if_pos hpe]
         · rw [if_neg hpe]
           simp only [List.append_eq_nil_iff]
